@@ -123,14 +123,26 @@ def rpcExec (s : Store) (rstart rend : Bytes) (w : List String) : Option (Store 
   | ["other", _] => pure (s, "other")
   | _ => none
 
+/-- split at the commas that are not inside parentheses (`E:locked(61,61,…),63=0100@0` has two elements) -/
+def splitTop (s : String) : List String :=
+  let rec go (cs : List Char) (depth : Nat) (cur : List Char) (acc : List String) : List String :=
+    match cs with
+    | [] => (String.ofList cur.reverse :: acc).reverse
+    | c :: rest =>
+      if c == '(' then go rest (depth + 1) (c :: cur) acc
+      else if c == ')' then go rest (depth - 1) (c :: cur) acc
+      else if c == ',' && depth == 0 then go rest depth [] (String.ofList cur.reverse :: acc)
+      else go rest depth (c :: cur) acc
+  go s.toList 0 [] []
+
 /-- recorded commit timestamps of reads are 0 unless the request asked for them: compare modulo `@c` / trailing ts -/
 def stripTS (ans : String) : String :=
   let toks := ans.splitOn " "
   match toks with
   | ["ok", v, _] => s!"ok {v}"
   | _ => " ".intercalate (toks.map fun t =>
-      if t.startsWith "E:" then t else
-      ",".intercalate ((t.splitOn ",").map fun p => (p.splitOn "@").headD p))
+      ",".intercalate ((splitTop t).map fun p =>
+        if p.startsWith "E:" then p else (p.splitOn "@").headD p))
 
 def answersAgree (cmd : String) (model recorded : String) : Bool :=
   if cmd == "get" || cmd == "bget" then model == recorded || stripTS model == stripTS recorded
